@@ -800,11 +800,34 @@ func (r *chainRun) checkFreshReplay(n *Node) *Violation {
 }
 
 func (r *chainRun) replayPath(f *Node, n *Node, path []*MBlock) *Violation {
+	// the fresh node's ledger holds the same block tree as the node's (admission of frozen
+	// outputs looks at the ledger height); its state plays genesis..B only
+	var v *nodeView
+	for i, x := range r.w.Nodes {
+		if x == n {
+			v = r.views[i]
+		}
+	}
+	onPath := map[string]bool{}
+	for _, mb := range path {
+		onPath[string(mb.ID)] = true
+	}
 	for _, mb := range path[1:] {
 		cs := f.L.ConfirmBlock(CloneBlock(mb.Block), false)
 		if !cs.Succ {
 			return r.viol("fresh-replay-refused", "fresh node refuses block %s (h=%d) of the chain %s sits on: %v", hx(mb.ID), mb.Height, n.Name, cs.Error)
 		}
+	}
+	if v != nil {
+		for _, id := range v.stored {
+			mb := r.cm.Blocks[id]
+			if onPath[id] || !f.L.ExistBlock(mb.Pre) {
+				continue
+			}
+			f.L.ConfirmBlock(CloneBlock(mb.Block), false)
+		}
+	}
+	for _, mb := range path[1:] {
 		if err := f.S.Play(mb.ID); err != nil {
 			return r.viol("fresh-replay-refused", "fresh node cannot play block %s (h=%d) of the chain %s sits on: %v", hx(mb.ID), mb.Height, n.Name, err)
 		}
@@ -842,7 +865,17 @@ func (r *chainRun) checkConservation(n *Node, cur *MState) *Violation {
 	total := n.S.GetTotal()
 	lhs := new(big.Int).Add(sum, fee)
 	if lhs.Cmp(total) != 0 {
-		return r.viol("supply-mismatch", "%s: sum(unspent)=%s + pending fees=%s != reported total %s", n.Name, sum, fee, total)
+		vi := r.viol("supply-mismatch", "%s: sum(unspent)=%s + pending fees=%s != reported total %s", n.Name, sum, fee, total)
+		// discriminate "only the in-memory total is off": an instance reopened on the same data reports
+		// the total that matches the table
+		if tw, err := n.Twin(); err == nil {
+			if tw.S.GetTotal().Cmp(lhs) == 0 {
+				vi.Clause = "in-memory-total-differs-from-disk"
+				vi.Msg += fmt.Sprintf(" (a reopened instance reports %s)", tw.S.GetTotal())
+			}
+			tw.Drop()
+		}
+		return vi
 	}
 	base, err := r.cm.StateAt(n.S.GetLatestBlockid())
 	if err == nil && base.Total.Cmp(total) != 0 {
